@@ -135,7 +135,7 @@ func RunInterleave(c *sim.Ctx, prop string) {
 	nTasks := knob("tasks", 2, maxTasks)
 	poolMix = 0
 	if comp == cPool {
-		poolMix = knob("pool_operation_mix", 0, 1)
+		poolMix = knob("pool_operation_mix", 0, 2) // 0 all operations; 1, 2 writes, flushes and reads of the underlying databases only
 	}
 	if prop == "C29" {
 		nTasks = knob("tasks_c29", 1, maxTasks)
@@ -424,7 +424,7 @@ func newEnv(c *sim.Ctx, comp int) *env {
 		for i := range e.pstore {
 			e.pstore[i], _ = e.pool.OpenDB(poolNames[i])
 		}
-		if c.Knob("underlying_handles_prepared", func() int64 { return int64(c.PickW("underlying_handles_prepared", []int{1, 3})) }) == 1 {
+		if c.Knob("underlying_handles_prepared", func() int64 { return int64(c.PickW("underlying_handles_prepared", []int{1, 3})) }) == 1 || poolMix >= 1 {
 			// the application obtained the read-only handles of the underlying databases before its goroutines started
 			for i := range e.kept {
 				e.kept[i], _ = e.pool.GetUnderlying(poolNames[i])
@@ -532,7 +532,7 @@ func genOp(c *sim.Ctx, comp, task int) sim.Op {
 	case cPool:
 		names := []string{"put", "get", "del", "flushpool", "underget", "nfsize", "names", "has"}
 		w := []int{8, 6, 3, 3, 4, 2, 1, 3}
-		if poolMix == 1 {
+		if poolMix >= 1 {
 			// swarm: a run made of writes, flushes and reads of the underlying databases only (what a flush looks like to those readers)
 			w = []int{5, 0, 1, 4, 10, 0, 0, 0}
 		}
